@@ -476,3 +476,25 @@ class KVDict(object):
 
 class GSet(KVDict):
     """generic set: KVDict whose values are ignored"""
+
+
+class GuardedSeq(object):
+    """sequence whose elements are present under guards (values()/items() of a node-keyed map, popped subscriber lists)"""
+
+    def __init__(self, items):
+        self.items = list(items)
+
+    def iter_items(self, I):
+        return [(g, x) for g, x in self.items if g is not False]
+
+
+OPAQUE_LE = None
+
+
+def opaque_le(a, b):
+    """uninterpreted total preorder on opaque values (user values that are comparable, e.g. priority queue items)"""
+    import z3 as _z3
+    global OPAQUE_LE
+    if OPAQUE_LE is None:
+        OPAQUE_LE = _z3.Function('opaque_le', _z3.IntSort(), _z3.IntSort(), _z3.BoolSort())
+    return OPAQUE_LE(to_z3(a.id), to_z3(b.id))
